@@ -49,6 +49,7 @@ package parser
 //@ safety
 //@ requires PInv(p) && tokOK(p.l, got)
 //@ ensures[C20.parser.inv] PInv(p)
+//@ ensures[C03.err.set] p.err != nil
 
 //@ func (*Parser).setTokenError
 //@ props C20 C03
